@@ -161,7 +161,7 @@ def doRun (a : Json) : Except String Json := do
 
 def judgeAll (f : Ups → Nat) : Nat → List Op → List Bool → List State → List Json → List Json
   | k, op :: ops, ok :: oks, pre :: post :: rest, acc =>
-    let v := (judgeStep f pre op ok post).map fun c => J.obj [("step", J.nat k), ("class", Json.str c)]
+    let v := (judgeStep f pre op ok post ++ judgeState post).map fun c => J.obj [("step", J.nat k), ("class", Json.str c)]
     judgeAll f (k + 1) ops oks (post :: rest) (acc ++ v)
   | _, _, _, _, acc => acc
 
